@@ -67,8 +67,8 @@ PairTicksTL(f, tl, x) ==
     IF f.sigs = <<>> THEN BeatToTicks(tl, 0, 4 * M(f, x) + (4 * I(f, x)) \div D(f, x), (4 * I(f, x)) % D(f, x), D(f, x))
     ELSE LET p == P4800(f, x) IN BeatToTicks(tl, 0, p \div 4800, p % 4800, 4800)
 PairBlTL(f, tl, x) ==
-    IF f.sigs = <<>> THEN BlAt(tl, 4 * M(f, x) + (4 * I(f, x)) \div D(f, x), (4 * I(f, x)) % D(f, x), D(f, x))
-    ELSE LET p == P4800(f, x) IN BlAt(tl, p \div 4800, p % 4800, 4800)
+    IF f.sigs = <<>> THEN BlAround(tl, 4 * M(f, x) + (4 * I(f, x)) \div D(f, x), (4 * I(f, x)) % D(f, x), D(f, x))
+    ELSE LET p == P4800(f, x) IN BlAround(tl, p \div 4800, p % 4800, 4800)
 
 Wav(f, id) == LET S == { i \in DOMAIN f.wavs : f.wavs[i].id = id } IN IF S = {} THEN "" ELSE f.wavs[CHOOSE i \in S : TRUE].file
 
